@@ -1,6 +1,7 @@
-(** C01 — theorems (statements in full; proofs in Proofs.v, Tables.v, Chain.v, Complete.v,
-    Ledger.v; vocabulary — [valid_chain], [ops_on], [scanned_blocks], [ledger], [all_scanned],
-    [orphans_dead], [settled], [same_notes], [notes_incl] — in Spec.v).
+(** C01 — theorems (statements in full; proofs in Proofs.v, Tables.v, Chain.v, WProofs.v,
+    WTables.v, WComplete.v, WLedger.v, WBridge.v, WfProofs.v; vocabulary — [valid_chain], [ops_on],
+    [scanned_blocks], [ledger], [all_scanned], [orphans_dead], [settled], [same_notes],
+    [notes_incl], [weak_universe], [own_versions], [reach_w], [out_id] — in Spec.v).
 
     Model covered: [Model.run] over ARBITRARY sequences of [OScan] (the complete
     scan_cached_blocks / put_blocks_rows row logic: unspent-nullifier set, mark_notes_spent,
@@ -9,19 +10,22 @@
     nullifiers / revealed nullifiers, a note spent strictly above the block creating it).
     The theorems say nothing when an operation of the sequence fails ([run] = Err); that the
     real operations succeed and leave the same tables is what [run_case] checks.
+
     The [C01_forks_*] theorems extend this to histories in which the best chain changes under
-    the wallet ([Spec.reach]: new blocks arriving, and rewinds followed by a different
+    the wallet ([Spec.reach_w]: new blocks arriving, and rewinds followed by a different
     continuation, with transactions dropped, re-mined at other heights, or replaced by
-    conflicting spends), all blocks ever offered forming a [valid_universe] (a txid names one
-    transaction INCLUDING its outputs' nullifiers, an output nullifier one output).
-    Guard that matters: [valid_universe.vu_tx] excludes a wallet-owned Sapling output re-mined
-    at another position of the commitment tree (same txid and output index, new nullifier).  The
-    model does cover it (rows keyed by (pool, txid, output index), nullifier replaced by the
-    upsert; under the guard this equals the upsert by nullifier, [Proofs.put_note_keyed]); the
-    generator produces and later spends such notes, and [run_case] / [prop_case] check them. *)
+    conflicting spends), all blocks ever offered forming a [weak_universe]: a txid names one
+    transaction UP TO the nullifiers of its outputs, a nullifier names one output (pool, txid,
+    index).  A wallet-owned Sapling output re-mined at another position of the commitment tree
+    (same txid and output index, new nullifier) is therefore INSIDE the domain of these theorems
+    ([ex_remined_reach] below).  The guard that replaces the former [valid_universe.vu_tx] is
+    [own_versions]: each best chain reveals, of an output it contains, only the nullifier of its
+    own version (a spend of the nullifier the note had on an abandoned branch is not valid on
+    this chain).  The former statements, over [valid_universe] / [reach], are kept as the
+    [C01_strict_forks_*] corollaries. *)
 From V.Lib Require Import Base.
 From V.Gen Require Import C01Consts.
-From V.C01 Require Import Model Spec Proofs Tables Chain Complete Ledger Corr Bridge.
+From V.C01 Require Import Model Spec Proofs Tables Chain WProofs WTables WComplete WLedger Corr WBridge Wf WfProofs.
 Local Open Scope N_scope.
 
 (** In every wallet state whatsoever, what the summary reports for an account and pool as
@@ -158,27 +162,35 @@ Theorem C01_scan_idempotent :
          /\ bal_uneconomic s2 (tp + 1) a p = bal_uneconomic s1 (tp + 1) a p.
 Proof. exact scan_idempotent_lemma. Qed.
 
-(** ** Histories whose chain changes: rewind followed by a different continuation *)
+(** ** Histories whose chain changes: rewind followed by a different continuation, over a
+       universe in which a re-mined output may come back under another nullifier *)
 
 (** Nothing is created or counted twice, whatever happened to the chain: every note row is an
-    output of some block the wallet was offered, every recorded spender reveals the nullifier,
-    no two rows share a nullifier, and every block held as scanned is a block of the CURRENT
-    best chain. *)
+    output of some block the wallet was offered (with the nullifier of that version of the
+    output), every recorded spender is a transaction the wallet was offered that reveals the
+    nullifier of SOME version of that output (pool, receiving txid, index), no two rows name the
+    same output, no two rows share a nullifier, and every block held as scanned is a block of
+    the CURRENT best chain. *)
 Theorem C01_forks_ledger_sound :
-  forall U birthday c s, valid_universe U -> reach U birthday c s ->
+  forall U birthday c s, weak_universe U -> reach_w U birthday c s ->
     (forall n, In n (w_notes s) ->
        (exists b t o, In b U /\ In t (b_txs b) /\ In o (t_outs t) /\ o_owner o = Some (n_acct n)
                       /\ o_key o = n_key n /\ o_value o = n_value n /\ t_id t = n_recv n /\ o_idx o = n_idx n)
        /\ (forall tid, In tid (n_spent n) ->
-             exists b t, In b U /\ In t (b_txs b) /\ t_id t = tid /\ In (n_key n) (t_spends t)))
+             exists b t k, In b U /\ In t (b_txs b) /\ t_id t = tid
+               /\ (exists bV tV oV, In bV U /\ In tV (b_txs bV) /\ In oV (t_outs tV)
+                                    /\ out_id tV oV = (fst (n_key n), n_recv n, n_idx n) /\ o_key oV = k)
+               /\ In k (t_spends t)))
+    /\ NoDup (map (fun n => (fst (n_key n), n_recv n, n_idx n)) (w_notes s))
     /\ NoDup (map n_key (w_notes s))
     /\ (forall h x, In (h, x) (w_blocks s) -> exists b, In b c /\ b_height b = h /\ b_hash b = x).
 Proof. exact forks_sound_lemma. Qed.
 
 (** Spend completeness with respect to the current best chain, after any history of scans, tip
-    updates, rewinds and chain replacements. *)
+    updates, rewinds and chain replacements: the row of the note carries the nullifier of the
+    current chain's version of the output, and records the spender. *)
 Theorem C01_forks_spends_complete :
-  forall U birthday c s, valid_universe U -> reach U birthday c s ->
+  forall U birthday c s, weak_universe U -> reach_w U birthday c s ->
   forall b t o b' t',
     In b c -> In t (b_txs b) -> In o (t_outs t) -> owned o = true -> has_block (w_blocks s) (b_height b) = true ->
     In b' c -> In t' (b_txs b') -> In (o_key o) (t_spends t') -> has_block (w_blocks s) (b_height b') = true ->
@@ -189,7 +201,7 @@ Proof. exact forks_spends_complete_lemma. Qed.
     transactions orphaned by rewinds have expired ("apart from transactions orphaned by a
     rewind, which stop counting once they expire"). *)
 Theorem C01_forks_balance_is_ledger :
-  forall U birthday c s tp, valid_universe U -> reach U birthday c s ->
+  forall U birthday c s tp, weak_universe U -> reach_w U birthday c s ->
   w_tip s = Some tp -> orphans_dead s (tp + 1) ->
   forall a p, bal_total s (tp + 1) a p + bal_uneconomic s (tp + 1) a p = ledger (scanned_blocks c s) a p.
 Proof. exact forks_balance_lemma. Qed.
@@ -198,8 +210,8 @@ Proof. exact forks_balance_lemma. Qed.
     scanned blocks, the same tip and no live orphan end with the same notes, spent status and
     balances. *)
 Theorem C01_forks_order_independence :
-  forall U birthday c s1 s2 tp, valid_universe U ->
-    reach U birthday c s1 -> reach U birthday c s2 ->
+  forall U birthday c s1 s2 tp, weak_universe U ->
+    reach_w U birthday c s1 -> reach_w U birthday c s2 ->
     (forall m, has_block (w_blocks s1) m = true <-> has_block (w_blocks s2) m = true) ->
     w_tip s1 = Some tp -> w_tip s2 = Some tp ->
     orphans_dead s1 (tp + 1) -> orphans_dead s2 (tp + 1) ->
@@ -212,8 +224,8 @@ Proof. exact forks_order_independence_lemma. Qed.
     order (orphaned notes and rows of abandoned branches may remain in the tables; they no
     longer count). *)
 Theorem C01_forks_same_as_linear_scan :
-  forall U birthday c s sl tp, valid_universe U ->
-    reach U birthday c s ->
+  forall U birthday c s sl tp, weak_universe U ->
+    reach_w U birthday c s ->
     run birthday init [OScan c] = Ok sl ->
     all_scanned c s -> w_tip s = Some tp -> w_tip sl = Some tp -> orphans_dead s (tp + 1) ->
     same_notes c s sl /\ same_notes c sl s
@@ -221,12 +233,70 @@ Theorem C01_forks_same_as_linear_scan :
                    /\ bal_uneconomic s (tp + 1) a p = bal_uneconomic sl (tp + 1) a p.
 Proof. exact forks_linear_scan_lemma. Qed.
 
-(** Bridge (partial) between correspondence and property.  For a history all of whose scanned
-    batches come from one valid chain: if the model reproduces every outcome and every dump
-    ([run_case]), then on every dump the balances the implementation reported are the
-    ground-truth ledger of the blocks scanned so far whenever the dump shows no live orphan
-    ([ledger_steps], which is a conjunct of [prop_case], next theorem).  The other conjuncts of
-    [prop_case] and histories with forks are not bridged. *)
+(** *** The strict universe (a txid names one transaction INCLUDING its output nullifiers) is a
+        special case, with the statements in their former shape *)
+
+Theorem C01_strict_universe_is_weak :
+  forall U, valid_universe U -> weak_universe U /\ forall c, incl c U -> own_versions c U.
+Proof. exact (fun U H => conj (strict_weak U H) (fun c => strict_own c U H)). Qed.
+
+Theorem C01_strict_reach_is_reach :
+  forall U birthday c s, valid_universe U -> reach U birthday c s -> reach_w U birthday c s.
+Proof. exact reach_strict_w. Qed.
+
+Theorem C01_strict_forks_ledger_sound :
+  forall U birthday c s, valid_universe U -> reach U birthday c s ->
+    (forall n, In n (w_notes s) ->
+       (exists b t o, In b U /\ In t (b_txs b) /\ In o (t_outs t) /\ o_owner o = Some (n_acct n)
+                      /\ o_key o = n_key n /\ o_value o = n_value n /\ t_id t = n_recv n /\ o_idx o = n_idx n)
+       /\ (forall tid, In tid (n_spent n) ->
+             exists b t, In b U /\ In t (b_txs b) /\ t_id t = tid /\ In (n_key n) (t_spends t)))
+    /\ NoDup (map n_key (w_notes s))
+    /\ (forall h x, In (h, x) (w_blocks s) -> exists b, In b c /\ b_height b = h /\ b_hash b = x).
+Proof. exact strict_forks_sound_lemma. Qed.
+
+Theorem C01_strict_forks_spends_complete :
+  forall U birthday c s, valid_universe U -> reach U birthday c s ->
+  forall b t o b' t',
+    In b c -> In t (b_txs b) -> In o (t_outs t) -> owned o = true -> has_block (w_blocks s) (b_height b) = true ->
+    In b' c -> In t' (b_txs b') -> In (o_key o) (t_spends t') -> has_block (w_blocks s) (b_height b') = true ->
+    exists n, In n (w_notes s) /\ n_key n = o_key o /\ In (t_id t') (n_spent n) /\ row_mined (w_txs s) (t_id t') = true.
+Proof. exact strict_forks_spends_complete_lemma. Qed.
+
+Theorem C01_strict_forks_balance_is_ledger :
+  forall U birthday c s tp, valid_universe U -> reach U birthday c s ->
+  w_tip s = Some tp -> orphans_dead s (tp + 1) ->
+  forall a p, bal_total s (tp + 1) a p + bal_uneconomic s (tp + 1) a p = ledger (scanned_blocks c s) a p.
+Proof. exact strict_forks_balance_lemma. Qed.
+
+Theorem C01_strict_forks_order_independence :
+  forall U birthday c s1 s2 tp, valid_universe U ->
+    reach U birthday c s1 -> reach U birthday c s2 ->
+    (forall m, has_block (w_blocks s1) m = true <-> has_block (w_blocks s2) m = true) ->
+    w_tip s1 = Some tp -> w_tip s2 = Some tp ->
+    orphans_dead s1 (tp + 1) -> orphans_dead s2 (tp + 1) ->
+    same_notes c s1 s2
+    /\ forall a p, bal_total s1 (tp + 1) a p = bal_total s2 (tp + 1) a p
+                   /\ bal_uneconomic s1 (tp + 1) a p = bal_uneconomic s2 (tp + 1) a p.
+Proof. exact strict_forks_order_independence_lemma. Qed.
+
+Theorem C01_strict_forks_same_as_linear_scan :
+  forall U birthday c s sl tp, valid_universe U ->
+    reach U birthday c s ->
+    run birthday init [OScan c] = Ok sl ->
+    all_scanned c s -> w_tip s = Some tp -> w_tip sl = Some tp -> orphans_dead s (tp + 1) ->
+    same_notes c s sl /\ same_notes c sl s
+    /\ forall a p, bal_total s (tp + 1) a p = bal_total sl (tp + 1) a p
+                   /\ bal_uneconomic s (tp + 1) a p = bal_uneconomic sl (tp + 1) a p.
+Proof. exact strict_forks_linear_scan_lemma. Qed.
+
+(** ** Bridge (partial) between correspondence and property
+
+    For a history all of whose scanned batches come from one valid chain: if the model
+    reproduces every outcome and every dump ([run_case]), then on every dump the balances the
+    implementation reported are the ground-truth ledger of the blocks scanned so far whenever
+    the dump shows no live orphan ([ledger_steps], which is a conjunct of [prop_case], third
+    theorem below).  The other conjuncts of [prop_case] are not bridged. *)
 Theorem C01_bridge_ledger_partial :
   forall (c : list block) (n : N) (steps : list stepc) (lin : option dump),
     valid_chain BIRTHDAY c ->
@@ -235,9 +305,31 @@ Theorem C01_bridge_ledger_partial :
     ledger_steps [] steps = true.
 Proof. exact bridge_ledger_lemma. Qed.
 
+(** The same for histories with forks ([fork_hist U c S steps], WBridge.v: each scanned batch
+    comes from the best chain current at that step; between two steps the best chain may be
+    replaced by a valid chain of [U] that agrees with it up to a height at or above every block
+    scanned so far), over the universe with position-dependent nullifiers. *)
+Theorem C01_bridge_ledger_forks :
+  forall (U c : list block) (n : N) (steps : list stepc) (lin : option dump),
+    weak_universe U -> valid_chain BIRTHDAY c -> incl c U -> own_versions c U ->
+    fork_hist U c [] steps ->
+    run_case (Hist n steps lin) = true ->
+    ledger_steps [] steps = true.
+Proof. exact bridge_forks_lemma. Qed.
+
 Theorem C01_bridge_clause_of_prop_case :
   forall (l : list stepc) (S : list block), fst (prop_steps S l) = true -> ledger_steps S l = true.
 Proof. exact prop_steps_ledger. Qed.
+
+(** The universe hypothesis of the [C01_forks_*] theorems is what [wf_case] evaluates on every
+    generated history: a case that passes [wf_case] has its scanned batches, taken together, in
+    a [weak_universe].  ([own_versions] and the validity of each best chain are not derived from
+    [wf_case]: a case does not name its best chains; [wf_case] checks instead that the blocks
+    held at any time form part of a valid chain.) *)
+Theorem C01_wf_case_universe :
+  forall (n : N) (steps : list stepc) (lin : option dump),
+    wf_case (Hist n steps lin) = true -> weak_universe (case_blocks steps).
+Proof. exact wf_case_weak. Qed.
 
 (** A transaction un-mined by a rewind whose expiry is unknown stops counting (as a spender
     and as a receiver) once the target height passes its first observation by more than the
@@ -358,4 +450,110 @@ Proof.
       * intros x Hx. cbn in Hx. cbn. intuition.
     + intros bs H. inversion H; subst. intros x Hx. cbn in Hx. cbn. intuition.
   - vm_compute in E1. inversion E1; subst. vm_compute in E2. inversion E2; subst. vm_compute. auto.
+Qed.
+
+(** * Non-vacuity of the universe with position-dependent nullifiers
+
+    Transaction 1 (creating a note of account 0) is mined in block 11 of branch A with nullifier
+    5 and, after a reorganisation above height 10, in block 12 of branch B with nullifier 55
+    (another position of the commitment tree).  Branch A spends the note in transaction 2
+    (revealing 5), branch B in transaction 3 (revealing 55). *)
+Definition ex_chainA : list block :=
+  [ mkBlock 10 1 0 [];
+    mkBlock 11 2 1 [mkTx 1 [] [mkOut (Some 0) 1 70000 5 0]];
+    mkBlock 12 3 2 [mkTx 2 [(1, 5)] [mkOut (Some 0) 1 4000 7 0]] ].
+Definition ex_chainB : list block :=
+  [ mkBlock 10 1 0 [];
+    mkBlock 11 20 1 [];
+    mkBlock 12 21 20 [mkTx 1 [] [mkOut (Some 0) 1 70000 55 0]];
+    mkBlock 13 22 21 [mkTx 3 [(1, 55)] [mkOut (Some 0) 1 4000 8 0]] ].
+Definition ex_universeW : list block := ex_chainA ++ skipn 1 ex_chainB.
+
+Ltac crush_in := cbn in *; intuition (subst; cbn in *; intuition (subst; cbn in *; try discriminate; try lia; auto;
+                   intuition (subst; cbn in *; try discriminate; try lia; auto))).
+
+Example ex_validA : valid_chain 10 ex_chainA.
+Proof.
+  constructor.
+  - cbn; auto.
+  - cbn. repeat constructor; cbn; intuition discriminate.
+  - cbn. repeat constructor; cbn; intuition discriminate.
+  - cbn. repeat constructor; cbn; intuition discriminate.
+  - intros k hs hc [b [t [Hb [Hh [Ht Hk]]]]] [b' [t' [o [Hb' [Hh' [Ht' [Ho [Hoo Hko]]]]]]]]. crush_in.
+  - intros b t o o' Hb Ht Ho Ho' Hp Hi. crush_in.
+Qed.
+
+Example ex_validB : valid_chain 10 ex_chainB.
+Proof.
+  constructor.
+  - cbn; auto.
+  - cbn. repeat constructor; cbn; intuition discriminate.
+  - cbn. repeat constructor; cbn; intuition discriminate.
+  - cbn. repeat constructor; cbn; intuition discriminate.
+  - intros k hs hc [b [t [Hb [Hh [Ht Hk]]]]] [b' [t' [o [Hb' [Hh' [Ht' [Ho [Hoo Hko]]]]]]]]. crush_in.
+  - intros b t o o' Hb Ht Ho Ho' Hp Hi. crush_in.
+Qed.
+
+(** the universe is weak but NOT strict: txid 1 names two transactions differing in a nullifier *)
+Example ex_universeW_weak : weak_universe ex_universeW.
+Proof.
+  constructor.
+  - intros b t b' t' Hb Ht Hb' Ht' E. crush_in.
+  - intros b t o b' t' o' Hb Ht Ho Hb' Ht' Ho' E. crush_in.
+  - intros b t o o' Hb Ht Ho Ho' Hp Hi. crush_in.
+Qed.
+
+Example ex_universeW_not_strict : ~ valid_universe ex_universeW.
+Proof.
+  intros [H _ _].
+  specialize (H (mkBlock 11 2 1 [mkTx 1 [] [mkOut (Some 0) 1 70000 5 0]]) (mkTx 1 [] [mkOut (Some 0) 1 70000 5 0])
+                (mkBlock 12 21 20 [mkTx 1 [] [mkOut (Some 0) 1 70000 55 0]]) (mkTx 1 [] [mkOut (Some 0) 1 70000 55 0])).
+  cbn in H. assert (E : mkTx 1 [] [mkOut (Some 0) 1 70000 5 0] = mkTx 1 [] [mkOut (Some 0) 1 70000 55 0]) by (apply H; auto 10).
+  discriminate E.
+Qed.
+
+Example ex_ownA : own_versions ex_chainA ex_universeW.
+Proof. intros b1 t1 bV tV oV b0 t0 o Hb1 Ht1 HbV HtV HoV Hk Hb0 Ht0 Ho E. crush_in. Qed.
+
+Example ex_ownB : own_versions ex_chainB ex_universeW.
+Proof. intros b1 t1 bV tV oV b0 t0 o Hb1 Ht1 HbV HtV HoV Hk Hb0 Ht0 Ho E. crush_in. Qed.
+
+(** the wallet scans branch A, rewinds to 10, scans branch B, and its tip moves on until the
+    orphaned transaction 2 has expired: the state is reachable, the row of the re-mined note
+    carries the new nullifier and records both spenders, no orphan is alive, and the balance is
+    the 4000 zatoshi (uneconomic) change of transaction 3 *)
+Example ex_remined_reach :
+  exists s, reach_w ex_universeW 10 ex_chainB s
+            /\ forallb (fun b => has_block (w_blocks s) (b_height b)) ex_chainB = true
+            /\ w_tip s = Some 60
+            /\ map (fun n => (n_key n, n_recv n, n_spent n)) (w_notes s) = [((1, 55), 1, [2; 3]); ((1, 7), 2, []); ((1, 8), 3, [])]
+            /\ orphans_dead s 61
+            /\ (bal_total s 61 0 1, bal_uneconomic s 61 0 1) = (0, 4000).
+Proof.
+  destruct (run 10 init [OScan ex_chainA; OTrunc 10]) as [s1| |] eqn:E1; try (vm_compute in E1; discriminate).
+  destruct (run 10 s1 [OScan (skipn 1 ex_chainB); OTip 60]) as [s2| |] eqn:E2;
+    try (vm_compute in E1; inversion E1; subst; vm_compute in E2; discriminate).
+  exists s2. split.
+  - cbn [run] in E2. destruct (step 10 s1 (OScan (skipn 1 ex_chainB))) as [s3| |] eqn:E3; try discriminate.
+    apply (reachw_op ex_universeW 10 ex_chainB s3 (OTip 60) s2); [| intros bs H; discriminate |].
+    2:{ destruct (step 10 s3 (OTip 60)) as [sx| |]; inversion E2; reflexivity. }
+    apply (reachw_op ex_universeW 10 ex_chainB s1 (OScan (skipn 1 ex_chainB)) s3); [| | exact E3].
+    + apply (reachw_switch ex_universeW 10 ex_chainA s1 ex_chainB 10).
+      * cbn [run] in E1. destruct (step 10 init (OScan ex_chainA)) as [s0| |] eqn:E0; try discriminate.
+        apply (reachw_op ex_universeW 10 ex_chainA s0 (OTrunc 10) s1); [| intros bs H; discriminate | ].
+        -- apply (reachw_op ex_universeW 10 ex_chainA init (OScan ex_chainA) s0); [| | exact E0].
+           ++ apply reachw_init; [exact ex_validA | intros x Hx; apply in_or_app; left; exact Hx | exact ex_ownA].
+           ++ intros bs H. inversion H; subst. apply incl_refl.
+        -- destruct (step 10 s0 (OTrunc 10)) as [sx| |]; inversion E1; reflexivity.
+      * vm_compute in E1. inversion E1; subst. intros m Hm. unfold has_block in Hm. cbn [w_blocks find_block] in Hm.
+        destruct (N.eqb 10 m) eqn:Em; [apply N.eqb_eq in Em; lia | cbn in Hm; discriminate].
+      * intros b Hle. cbn. split; intros H; intuition (subst; cbn in Hle; try lia; auto).
+      * exact ex_validB.
+      * intros x Hx. cbn in Hx. cbn. intuition.
+      * exact ex_ownB.
+    + intros bs H. inversion H; subst. intros x Hx. cbn in Hx. cbn. intuition.
+  - vm_compute in E1. inversion E1; subst. vm_compute in E2. inversion E2; subst.
+    split; [vm_compute; reflexivity|]. split; [reflexivity|]. split; [vm_compute; reflexivity|].
+    split; [| vm_compute; reflexivity].
+    intros r Hr Hm. cbn in Hr. intuition (subst; cbn in Hm; try discriminate; vm_compute; reflexivity).
 Qed.
